@@ -39,8 +39,14 @@ SEEDS = [
     "start: NAME &&(NUMBER*) NEWLINE\n",
     "start: &&(NAME?) NUMBER NEWLINE\n",
     "start: &&([NAME]) NEWLINE\n",
+    # a one-or-more repetition that matches nothing, directly under a forced item / an optional: it fails like any rule
+    "start: &&('+'+) NEWLINE | NAME NEWLINE\n",
+    "start: &&(&&('+'+))\na: &&NAME\n",
+    "start: a=['+'+] b=NAME NEWLINE { foo(a, b) }\n",
+    "start: ',' a=([','+] NAME+ !NUMBER) NAME* NEWLINE\n",
+    "start: a=(NUMBER+)? NAME NEWLINE\n",
 ]
-EXTRA_INPUTS = ["v x = 1 , y = 2\n", "w x = 1 , y = 2\n", "x 1 y 2 ; z 3\n", "x\n", "1 2\n", "x y\n", "a c\n", "a b\n", "a\n", "< p , q > ; < r , s >\n", "1 2\n", "x 1\n", "x y\n", "1 x\n"]
+EXTRA_INPUTS = ["v x = 1 , y = 2\n", "w x = 1 , y = 2\n", "x 1 y 2 ; z 3\n", "x\n", "1 2\n", "x y\n", "a c\n", "a b\n", "a\n", "< p , q > ; < r , s >\n", "1 2\n", "x 1\n", "x y\n", "1 x\n", "+ +\n", "+ + x\n", "\n", ", x\n", ", , x y\n"]
 KF_LOOKAHEAD_FORCED = {"grammar": "start: &(&&'a') 'a' 'b'\n", "input": "a b\n"}
 
 
